@@ -90,7 +90,7 @@ def verify_contract(c, src_index, unroll=0, timeout_ms=20000, registry=REGISTRY,
             f = it.function_from_real(fn)
             f._force_sync = True
             q = fn.__qualname__
-            it.loop_specs = {(q, k): v for k, v in c.loops.items()}
+            it.loop_specs = {(k if isinstance(k, tuple) else (q, k)): v for k, v in c.loops.items()}
             it.top_qualname = q
             sig_args = list(p.values())
             try:
